@@ -120,7 +120,7 @@ func main() {
 		}
 		fe := &FE{V: v, Fn: fn, C: c, S: &Sorter{BV: c.Arith == "bv"}, gdecls: map[string]string{}, strLits: map[string]string{}, prefixes: map[string]bool{}, usedExt: map[string]bool{}, usedAsm: map[string]bool{}}
 		fe.FnName = shortName(k)
-		fe.nopanic = c.NoPanic != nil
+		fe.nopanic = c.NoPanic != nil || c.NoPanicOwn != nil
 		for _, nm := range reflectKindNames {
 			fe.strLit(nm)
 		}
